@@ -729,8 +729,15 @@ class World:
             ob.text = inv
         # 2. havoc everything the body may modify
         mods = _modified_names(node)
+        rebound = _modified_names(node, rebinds_only=True)
         for nm in sorted(mods):
             if fr.has(nm):
+                cur = fr.lookup(nm)
+                if nm not in rebound and (cur is None or isinstance(
+                        cur, (int, str, bool, SInt, SStr, SBool))):
+                    # only "mutated" through a method call, but bound to an
+                    # immutable value: it cannot change
+                    continue
                 self.havoc(it, fr, nm, spec)
         if _has_yield(node) and it.out is not None:
             it.out.seq = TSeq(it.out.seq.elem).fresh('out', path.pc)
@@ -739,8 +746,19 @@ class World:
                 pl = it.ghost_vars['pulls']
                 pl.seq = TSeq(TInt).fresh('pulls')
                 path.assume(pl.seq.length == it.out.seq.length)
-        if it.calls_ghost is not None and _may_call(node):
-            it.calls_ghost.havoc(path)
+        if _may_call(node):
+            # ghost call counters of every callback in scope: arbitrary
+            # (the invariant says what is known about them)
+            f = fr
+            names = set(it.ncalls)
+            while f is not None:
+                names.update(v.name for v in f.vars.values()
+                             if isinstance(v, SFunc))
+                f = f.parent
+            for nm in sorted(names):
+                k = z3.Int(S.fresh_name('ncalls_' + nm))
+                path.assume(k >= 0)
+                it.ncalls[nm] = k
         ghost = Frame(parent=fr)
         if is_for:
             n = z3.Int(S.fresh_name(idx_name))
@@ -878,6 +896,7 @@ class World:
         sub.out = it.out
         sub.ghost_vars = it.ghost_vars
         sub.calls_ghost = it.calls_ghost
+        sub.ncalls = it.ncalls
         return sub.eval(tree, frame)
 
     def apply_contract(self, c, fn, args, kwargs, it, node):
@@ -1027,7 +1046,7 @@ def _owner(root, target):
     return _owner_of(root, target)
 
 
-def _modified_names(loop):
+def _modified_names(loop, rebinds_only=False):
     mods = set()
     body = loop.body + loop.orelse
     if isinstance(loop, ast.For):
@@ -1044,7 +1063,8 @@ def _modified_names(loop):
                         if isinstance(m, ast.Name) and isinstance(
                                 m.ctx, ast.Store):
                             mods.add(m.id)
-                        elif isinstance(m, (ast.Subscript, ast.Attribute)) \
+                        elif not rebinds_only and isinstance(
+                                m, (ast.Subscript, ast.Attribute)) \
                                 and isinstance(m.ctx, ast.Store):
                             b = m.value
                             while isinstance(b, (ast.Subscript,
@@ -1052,6 +1072,8 @@ def _modified_names(loop):
                                 b = b.value
                             if isinstance(b, ast.Name):
                                 mods.add(b.id)
+            elif rebinds_only:
+                continue
             elif isinstance(n, ast.Delete):
                 for t in n.targets:
                     b = t
